@@ -30,6 +30,9 @@ type ValidCfg struct {
 	MaxHeld int
 	// Depth is the search depth (set by the caller; 0: budgets are not folded into the key).
 	Depth int
+	// PastClock: the injected clock runs in 2001, far behind the machine's own clock (nothing in the replayer may
+	// depend on the wall clock once Now is replaced).
+	PastClock bool
 	// HugeTTL marks the configurations whose TTL is centuries (searched to a small depth).
 	HugeTTL bool
 }
@@ -37,6 +40,7 @@ type ValidCfg struct {
 const tick = int64(time.Second)
 
 var vbase = time.Date(2030, 1, 1, 0, 0, 0, 0, time.UTC)
+var pastBase = time.Date(2001, 1, 1, 0, 0, 0, 0, time.UTC)
 
 // VisitValid rebuilds the state reached by hist and checks, in the final state: every probe Replay against
 // the list model (C09), that every unexpired event is still reachable (C09), and that nothing expired is
@@ -52,8 +56,12 @@ func VisitValid(c ValidCfg, hist []uint8, which string, probes *int64) (uint64, 
 		gcInterval = time.Duration(c.GC) * time.Second / 4
 		r.GCInterval = gcInterval
 	}
-	var now int64 // ns since vbase
-	r.Now = func() time.Time { return vbase.Add(time.Duration(now)) }
+	var now int64 // ns since the base instant
+	base := vbase
+	if c.PastClock {
+		base = pastBase
+	}
+	r.Now = func() time.Time { return base.Add(time.Duration(now)) }
 
 	var all []entry // every accepted event, in Put order
 	next := 0
@@ -195,7 +203,7 @@ func VisitValid(c ValidCfg, hist []uint8, which string, probes *int64) (uint64, 
 	stateHash := deep.Hash(r)
 	key := stateHash ^ hashModel(all, uint64(now)) ^ uint64(t0)*0x9e3779b97f4a7c15
 	if c.Shape {
-		key = deep.ShapeHash(r, deep.Shape{Now: vbase.Add(time.Duration(now)), Horizon: max(gcInterval, 0)})
+		key = deep.ShapeHash(r, deep.Shape{Now: base.Add(time.Duration(now)), Horizon: max(gcInterval, 0)})
 		// reference model, same abstraction: per live entry its topics and the time left; plus how long ago
 		// the last Put/GC was (saturating at the interval)
 		for _, e := range all {
